@@ -108,9 +108,11 @@ Definition finalize_audit (c : cfg) (r : nat) (err : bool) (s : sys) : option (s
 
 Definition out := (sys * list lmsg * list res * bool)%type.   (* state, messages sent, results saved, raised *)
 
-(* Job.__init__ followed by Job.run / Job.run_async once the lock is held and no usable result is cached *)
+(* Job.__init__ followed by Job.run / Job.run_async once the lock is held and no usable result is cached.
+   [cmd_raises]: the task's command line cannot be rendered (ShellTask.cmdline raises), which audit_task
+   trips over first thing. *)
 Definition frame (c : cfg) (is_wf : bool) (dir : loc) (name : string) (files : list string) (shell : bool)
-                 (body : sys -> out) (s0 : sys) : out :=
+                 (cmd_raises : bool) (body : sys -> out) (s0 : sys) : out :=
   let '(r, h1) := alloc c is_wf (heap s0) in
   let s1 := with_heap s0 h1 in
   (* _populate_filesystem: save(cache_dir, job=self) cloudpickles the job with its audit; an Audit
@@ -118,22 +120,28 @@ Definition frame (c : cfg) (is_wf : bool) (dir : loc) (name : string) (files : l
   if a_mon (get h1 r) then (s1, [], [], true) else
   let cwd0 := cwd s1 in
   let '(s2, m_start) := start_audit c r dir s1 in
-  let '(s3, m_task) := if c_prov c && negb (c_async c && is_wf)       (* run_async never calls audit_task *)
-                       then audit_task c r name files shell s2 else (s2, []) in
-  let '(s4, m_mon) := monitor c r s3 in
-  let '(s5, m_body, r_body, err) := body s4 in
+  (* try: *)
+  let '(s3, m_mon) := monitor c r s2 in
+  let do_task := c_prov c && negb (c_async c && is_wf) in              (* run_async never calls audit_task *)
+  let '(s5, m_inner, r_body, err) :=
+    if do_task && cmd_raises then (s3, [], [], true)                     (* except: result.errored = True *)
+    else
+      let '(s4, m_task) := if do_task then audit_task c r name files shell s3 else (s3, []) in
+      let '(s5, m_body, r_body, err) := body s4 in
+      (s5, m_task ++ m_body, r_body, err) in
+  (* finally: *)
   match finalize_audit c r err s5 with
-  | None => (s5, m_start ++ m_task ++ m_mon ++ m_body, r_body, true)
+  | None => (s5, m_start ++ m_mon ++ m_inner, r_body, true)
   | Some (s6, m_fin) =>
       (mkSys (heap s6) (next s6) cwd0,                                  (* os.chdir(cwd) *)
-       m_start ++ m_task ++ m_mon ++ m_body ++ m_fin,
+       m_start ++ m_mon ++ m_inner ++ m_fin,
        r_body ++ [(dir, err)],                                          (* save(cache_dir, result=result, job=self) *)
        err)
   end.
 
 (* the jobs that execute, nested as they execute *)
 Inductive task :=
-| Leaf (dir : loc) (name : string) (files : list string) (shell : bool) (fails : bool)
+| Leaf (dir : loc) (name : string) (files : list string) (shell : bool) (fails : bool) (cmd_raises : bool)
 | Wf (dir : loc) (name : string) (nodes : list task) (fails : bool).
 
 Section Run.
@@ -143,9 +151,9 @@ Section Run.
      takes the workflow job down with it; the remaining ones are never started *)
   Fixpoint run_job (t : task) : sys -> out :=
     match t with
-    | Leaf d name files shell fails => frame c false d name files shell (fun s => (s, [], [], fails))
+    | Leaf d name files shell fails cr => frame c false d name files shell cr (fun s => (s, [], [], fails))
     | Wf d name nodes fails =>
-        frame c true d name [] false
+        frame c true d name [] false false
           (fun s =>
              let '(s', ms, rs, e) :=
                (fix go (l : list task) (s : sys) : out :=
